@@ -47,7 +47,7 @@ def build_cases(tier: str) -> list[dict]:
     for rel, content in pool.data_files(2048):
         if content not in texts:
             texts.append(content)
-    texts = sorted(set(texts) | set(NON_ASCII))
+    texts = sorted(set(texts) | set(NON_ASCII) | {pool.padded(t, k) for t in pool.carrier_texts() for k in (7, 9)})
     cases = []
     # configuration A
     for ti, t in enumerate(texts):
